@@ -106,6 +106,22 @@ def oracle_sa(cap, lines):
         if d.get("count") != str(cap): return "count() = %s for capacity %d" % (d.get("count"), cap)
     return None
 
+def oracle_sa8(cap, lines):
+    a = [0] * cap
+    for l in lines:
+        t = l.split(" "); d = _kv(l); name = t[0]
+        if name == "set": a[int(t[1])] = int(t[2]) % 256
+        elif name == "get":
+            if _ret(l) != str(a[int(t[1])]): return "[%s] = %s, last stored %d" % (t[1], _ret(l), a[int(t[1])])
+        elif name in ("fill", "ctorfill"): a = [int(t[1]) % 256] * cap
+        elif name == "clear": a = [255] * cap                       # filler<Short>() = INVALID_SHORT
+        elif name == "isempty":
+            if _ret(l) != ("1" if all(x == 255 for x in a) else "0"): return "empty() = %s for items %s (a one-byte item is 'empty' when it holds 255)" % (_ret(l), a)
+        elif name != "init": continue
+        if d.get("items") != ",".join(map(str, a)): return "after '%s' items are %s, expected %s" % (" ".join(t[:3]), d.get("items"), a)
+        if d.get("count") != str(cap): return "count() = %s for capacity %d" % (d.get("count"), cap)
+    return None
+
 def oracle_da(cap, lines):
     a = []
     for l in lines:
@@ -153,7 +169,7 @@ def oracle_tl(cap, lines):
             if i < len(slots) and slots[i] != "%d>%d" % (o, dd): return "occupied slot %d holds %s, stored %d>%d" % (i, slots[i], o, dd)
     return None
 
-ORACLES = dict(bs=oracle_bs, bw=oracle_bw, ba=oracle_ba, sa=oracle_sa, da=oracle_da, tl=oracle_tl)
+ORACLES = dict(bs=oracle_bs, bw=oracle_bw, ba=oracle_ba, sa=oracle_sa, sa8=oracle_sa8, da=oracle_da, tl=oracle_tl)
 
 def run(run, kinds_lines, variants=("include", "development"), extra_flags=(), wrapper=(), cxx="g++", opt="-O0", label=""):
     """kinds_lines: list of input lines. Records evaluations, divergences and violations on `run`."""
